@@ -218,3 +218,15 @@ Lemma next_full s idx : wfb s = true -> cap s < 2 ^ 64 -> idx <= cap s ->
              forall i, idx <= i -> i < m -> mem s i = false)
   \/ (next s idx = Some (None, cap s) /\ forall i, idx <= i -> i < cap s -> mem s i = false).
 Proof. intros W C H. apply wfb_wf in W. apply next_spec; assumption. Qed.
+
+(** strictly ascending implies: no index is yielded twice *)
+Lemma sorted_nodup (l : list N) : StronglySorted N.lt l -> NoDup l.
+Proof.
+  induction 1 as [|x l Hs IH Hf]; constructor; [|exact IH].
+  intros Hin. rewrite Forall_forall in Hf. specialize (Hf x Hin). lia.
+Qed.
+Lemma iter_bits_nodup s l idx : wfb s = true -> cap s < 2 ^ 64 -> iter_bits s = Some (idx, l) -> NoDup l.
+Proof.
+  intros W C E. destruct (iter_bits_full s W C) as (l' & E' & S & _). rewrite E in E'.
+  injection E' as _ ->. apply sorted_nodup. exact S.
+Qed.
